@@ -194,7 +194,7 @@ func TestVerifC14(t *testing.T) {
 	p := vrep.Env()
 	res := vrep.New("C14", p)
 	defer res.Guard()
-	res.Rule = "E3: (A) well-formed tracebacks for every PC sequence of length 0-3 over a pool of 6 real PCs (method, generic, inlined, plain) + 0, 1, 2^64-1, x sentinel offsets x sigpanic positions x missing-pc frames, and 1-20 frame repetitions: name must equal the encoding of the PCs by construction; (B) every single substitution of each free-text slot by 4 alternatives incl. frame-like and sentinel-like text: name unchanged or error; (C) every sequence of up to 5 (thorough 6) lines over 22 line kinds: total, well-shaped, no input text in the output; (D) 6 real crashing children of this executable"
+	res.Rule = "E3: (A) well-formed tracebacks for every PC sequence of length 0-3 over a pool of 6 real PCs (method, generic, inlined, plain) + 0, 1, 2^64-1, x sentinel offsets x sigpanic positions x missing-pc frames, and 1-20 frame repetitions: name must equal the encoding of the PCs by construction; (B) every single substitution of each free-text slot by 4 alternatives incl. frame-like and sentinel-like text: name unchanged or error; (C) every sequence of up to 5 (thorough 6) lines over 22 line kinds: total, well-shaped, no input text in the output; (D) 7 real crashing children of this executable (nil dereference, panic, inlined frame, recursion 40 and 150 deep, other goroutine, locked thread)"
 	res.Assumptions = []string{"PCs come from functions of the harness binary (method, generic instantiation, inlined callee)", "the reference for (A) is the generator's own PC list, encoded by counter.EncodeStack (whose faithfulness is C15's subject)"}
 	pool := zzvPCPool()
 	odd := []uintptr{0, 1, ^uintptr(0)}
@@ -427,6 +427,8 @@ func zzvCrashMid(kind string) int {
 		return zzvCrashInl(zzvSink)
 	case "deep":
 		return zzvCrashDeep(40)
+	case "deeper":
+		return zzvCrashDeep(150) // more than 100 frames: the runtime elides the middle of the traceback
 	}
 	return 0
 }
@@ -473,6 +475,7 @@ func zzvRealCrashes(res *vrep.Result) {
 		"panic":     {"crashmonitor.zzvCrashMid:+5"},
 		"inlined":   {"zzvCrashInl:", "zzvCrashMid:"},
 		"deep":      {"crashmonitor.zzvCrashDeep:"},
+		"deeper":    {"crashmonitor.zzvCrashDeep:"},
 		"goroutine": {"crashmonitor.zzvCrashNil:", "crashmonitor.zzvCrashMid:+3"},
 		"locked":    {"crashmonitor.zzvCrashNil:", "crashmonitor.zzvCrashMid:+3"},
 	}
